@@ -29,14 +29,15 @@ RULE = ("case = (documented name, spelling in {as documented, all '_', all '-', 
         "with all remote names; plus 200 undocumented names (typos of real ones); plus a default-home run. "
         "non-trivial: every load of a documented name; distinct by (name, spelling, unpack).")
 REQUIRED_MONITORS = ["c18:bundled", "c18:remote", "c18:pinned_checksum_enforced", "c18:all_in_one_home",
-                     "c18:undocumented", "c18:default_home", "c18:substitution_wrapper", "c18:switch_home"]
+                     "c18:undocumented", "c18:default_home", "c18:substitution_wrapper", "c18:switch_home", "c18:tilde_home"]
 ASSUMPTIONS = ["the served payloads are synthetic; what is observed is the loader's behaviour per name, not the remote files"]
 NPARTS = 12
 
 
 def plan(tier, seed):
     specs = [{"kind": "names", "part": p, "parts": NPARTS} for p in range(NPARTS)]
-    specs += [{"kind": "one_home"}, {"kind": "undocumented"}, {"kind": "default_home"}, {"kind": "switch_home"}]
+    specs += [{"kind": "one_home"}, {"kind": "undocumented"}, {"kind": "default_home"}, {"kind": "switch_home"},
+              {"kind": "tilde_home"}]
     return specs
 
 
@@ -349,8 +350,53 @@ def run_switch_home(ctx):
         shutil.rmtree(scratch, ignore_errors=True)
 
 
+def run_tilde_home(ctx):
+    """TRAFFIC_WEAVER_DATA=~/something (HOME redirected): the cache must live under $HOME/something, and a dataset
+    already cached there must be served without a request"""
+    names = [n for _t, n in _ds.documented_names() if not _ds.is_bundled(n)]
+    pick = [names[i] for i in ctx.rng("tilde", 0).choice(len(names), size=4, replace=False)]
+    scratch = _ds.scratch_root()
+    try:
+        user_home = os.path.join(scratch, "userhome")
+        os.mkdir(user_home)
+        real = os.path.join(user_home, "tw-cache")
+        steps = [{"op": "net", "default": "good"}] + [{"op": "by_name", "name": n, "substitute": True} for n in pick]
+        steps += [{"op": "net", "default": "urlerror"}] + [{"op": "by_name", "name": n, "substitute": True} for n in pick]
+        rc, out, err = _ds.run_child({"home": real, "home_mode": "tilde", "user_home": user_home,
+                                      "tilde_value": "~/tw-cache", "steps": steps}, scratch)
+        if out is None:
+            raise RuntimeError("dataset child failed rc=%s: %s" % (rc, err))
+        res = out["results"]
+        for j, n in enumerate(pick):
+            cid = {"kind": "tilde_home", "name": n, "seed": ctx.seed}
+            ctx.judged()
+            ctx.monitor("c18:tilde_home")
+            r, r2 = res[1 + j], res[2 + len(pick) + j]
+            if r.get("outcome") != "ok":
+                ctx.violation("documented_name_not_loadable", cid, {"exception": r.get("exc_type"), "message": r.get("exc_msg")})
+                continue
+            bad = _ds.outside_writes(r["audit"], real)
+            if bad:
+                ctx.violation("cache_not_under_the_directory_named_by_TRAFFIC_WEAVER_DATA", cid,
+                              {"value": "~/tw-cache", "expected_root": real, "events": bad[:4]})
+                continue
+            if r2.get("outcome") != "ok" or r2["requests"]:
+                ctx.violation("cached_dataset_not_served_without_network", cid,
+                              {"outcome": r2.get("outcome"), "exception": r2.get("exc_type"), "requests": r2["requests"]})
+                continue
+            ctx.nontriv("tilde", n)
+        stray = [e for e in os.listdir(scratch) if e.startswith("~")]
+        if stray:
+            ctx.violation("literal_tilde_directory_created", {"kind": "tilde_home", "seed": ctx.seed}, {"entries": stray})
+        ctx.sample({"tilde_home": {"TRAFFIC_WEAVER_DATA": "~/tw-cache", "names": pick}})
+    finally:
+        shutil.rmtree(scratch, ignore_errors=True)
+
+
 def run(ctx, spec):
     k = spec["kind"]
+    if k == "tilde_home":
+        return run_tilde_home(ctx)
     if k == "switch_home":
         return run_switch_home(ctx)
     if k == "names":
@@ -365,6 +411,8 @@ def run(ctx, spec):
 
 def replay(ctx, case):
     k = case["kind"]
+    if k == "tilde_home":
+        return run_tilde_home(ctx)
     if k == "switch_home":
         return run_switch_home(ctx)
     if k == "names":
